@@ -467,3 +467,14 @@ PLANS["C08"] = {
     "assumptions": ["allocation sizes are capped by the workload (an allocation failure aborts and proves nothing about memory safety)"],
 }
 PLANS["C08"]["require"]["thorough"] = PLANS["C08"]["require"]["quick"]
+
+# Portable (no-BMI2) code paths with overflow checks on: what a user gets from a debug build without target-cpu=native.
+# A strided sample (shards 0..k-1 of 16) of each query-heavy workload.
+for _p, _part, _kq, _kt in [("C02", None, 5, 16), ("C03", None, 5, 16), ("C04", None, 4, 16), ("C09", None, 4, 16), ("C10", "rand", 6, 16), ("C15", None, 4, 16), ("C19", None, 4, 16)]:
+    PLANS[_p]["legs"]["quick"].append(leg("dbg-nobmi", _kq, _part, of=16))
+    PLANS[_p]["legs"]["thorough"].append(leg("dbg-nobmi", _kt, _part, of=16))
+
+# C13 page_exact: the guard page behind an exact-page mapping must have been in place at least once, else the
+# "reads nothing past the file" observation did not happen.
+PLANS["C13"].setdefault("require", {}).setdefault("quick", []).append(("counter", "page_exact.guard_pages_placed", 1))
+PLANS["C13"]["require"].setdefault("thorough", []).append(("counter", "page_exact.guard_pages_placed", 1))
